@@ -65,20 +65,22 @@ func main() {
 	done := make(chan map[gen.PID][2]int, 1)
 	rp, _ := b.Spawn(func() gen.ProcessBehavior { return &recv{} }, gen.ProcessOptions{}, done)
 	fmt.Println("receiver", rp, "id%255 =", rp.ID%255)
-	var s0, s1 gen.PID
+	var s0 gen.PID
 	for {
 		p, _ := a.Spawn(func() gen.ProcessBehavior { return &sender{} }, gen.ProcessOptions{})
 		if p.ID%255 == 0 {
 			s0 = p
 			break
 		}
-		if s1.ID == 0 && p.ID%255 == 7 {
-			s1 = p
-		}
 	}
-	fmt.Println("sender with id%255==0:", s0, " control sender id%255==7:", s1)
+	fmt.Println("sender with id%255==0:", s0)
+	if len(os.Args) > 1 && os.Args[1] == "warm" {
+		// establish the connection first and let the pool of TCP links settle
+		a.Send(rp, "warmup")
+		time.Sleep(2 * time.Second)
+		<-done
+	}
 	a.Send(s0, rp)
-	a.Send(s1, rp)
 	time.Sleep(4 * time.Second)
 	b.Send(rp, "report")
 	res := <-done
